@@ -2,6 +2,7 @@
 
 use crate::evidence::Ctx;
 
+pub mod c09;
 pub mod c11;
 pub mod c15;
 pub mod c16;
@@ -11,6 +12,7 @@ pub mod c20;
 
 pub fn run(ctx: &mut Ctx) -> Result<(), String> {
     match ctx.prop.as_str() {
+        "C09" => c09::run(ctx),
         "C11" => c11::run(ctx),
         "C15" => c15::run(ctx),
         "C16" => c16::run(ctx),
